@@ -63,7 +63,9 @@ SHAPES = {
     "lnsquare2": (_lnsquare2, (1.5, 2.0, 0.0), False),
     "limited_growth2": (_limited_growth2, (0.09, 0.7), False),
 }
-WEIGHTS = {"none": None, "y": (lambda x, y: y), "invx": (lambda x, y: 1.0 / x)}
+WEIGHTS = {"none": None, "y": (lambda x, y: y), "invx": (lambda x, y: 1.0 / x),
+           # weights that are exactly 0 for some support points (those points are to be ignored)
+           "ramp0": (lambda x, y: x - np.min(x)), "window01": (lambda x, y: (np.arange(len(x)) % 3 != 1).astype(float))}
 
 
 def support(n):
@@ -145,8 +147,10 @@ def run_single(case):
     cons_list = [] if cons is None else ([cons] if isinstance(cons, dict) else list(cons))
     wfun = WEIGHTS[wk]
     viol = []
-    if wfun is not None and np.any(np.asarray(wfun(x, y), dtype=float) <= 0):
-        return {"viol": [], "n": 0, "nontrivial": 0, "count": {"skipped_non_positive_weights": 1}}
+    if wfun is not None:
+        w_ = np.asarray(wfun(x, y), dtype=float)
+        if (np.any(w_ <= 0) if wk in ("y", "invx") else np.count_nonzero(w_ > 0) < len(th) + 1):
+            return {"viol": [], "n": 0, "nontrivial": 0, "count": {"skipped_non_positive_weights": 1}}
 
     def bad(clause, detail):
         sig = {"check": "depfit", "clause": clause, "weighted": wk != "none", "constrained": ck != "none"}
